@@ -84,13 +84,13 @@ Let e := {| rf_s := s; rf_frags := rd_frags d; rf_vars := vars; rf_w := w; rf_cx
 Hypothesis Hu : sch_names_unique s.
 Hypothesis Hm : sch_no_meta_fields s.
 Hypothesis Hcov : known_covariant s d = false.
-Hypothesis Halias : rd_alias_consistent d = true.
 Hypothesis Hfr : frags_typed s (rd_frags d).
 Let maxty := rd_max rsl_max_ty d.
 Let c := 2 * maxty + 8.
 
 Notation tsel := (tsel_ok s d).
 Notation tfield := (tfield_ok s d).
+Notation mergeable := (ex_mergeable s (rd_frags d)).
 
 Lemma flatten_enough otn sels :
   ex_cneed (rd_frags d) sels [] <= ex_cfuel_for d -> Forall (doc_node d) sels ->
@@ -112,17 +112,19 @@ Qed.
 
 Definition PB_selset (fuel : nat) : Prop :=
   forall otn oimpls oid sels m, ex_get_object s otn = Some oimpls ->
-    sels_ok d m sels -> Forall (tsel otn oimpls) sels -> m * c + 1 <= fuel ->
+    sels_ok d m sels -> Forall (tsel otn oimpls) sels -> mergeable sels -> m * c + 1 <= fuel ->
     existsb (fun f => rt_out_of_fuel (snd f)) (rf_selset fuel e otn oid sels) = false.
 Definition PB_field (fuel : nat) : Prop :=
   forall otn oimpls oid fdef f0 rest m, ex_get_object s otn = Some oimpls ->
     Forall (field_ok d (S m)) (f0 :: rest) -> Forall (tfield otn oimpls) (f0 :: rest) ->
     td_type_field s otn (rs_name f0) = Some fdef -> Forall (fun g => rs_dty g = fd_ty fdef) (f0 :: rest) ->
+    mergeable (flat_map rs_sels (f0 :: rest)) ->
     m * c + 3 + 2 * maxty <= fuel ->
     rt_out_of_fuel (rf_field fuel e otn oid fdef (f0 :: rest)) = false.
 Definition PB_complete (fuel : nat) : Prop :=
   forall t r otn oimpls f0 rest m,
     Forall (field_ok d (S m)) (f0 :: rest) -> fields_at s d otn oimpls t (f0 :: rest) ->
+    mergeable (flat_map rs_sels (f0 :: rest)) ->
     m * c + 1 + ty_fuel t <= fuel ->
     rt_out_of_fuel (rf_complete fuel e t r (f0 :: rest)) = false.
 
@@ -138,7 +140,7 @@ Lemma ref_fuel_step fuel :
 Proof.
   intros (IHs & IHf & IHc). split; [|split].
   - (* rf_selset *)
-    intros otn oimpls oid sels m Hg [Hcf Hs] Hts Hm'. cbn [rf_selset]. cbn [e rf_s rf_frags rf_vars rf_cx].
+    intros otn oimpls oid sels m Hg [Hcf Hs] Hts Hmg Hm'. cbn [rf_selset]. cbn [e rf_s rf_frags rf_vars rf_cx].
     change (ex_cfuel cx) with (ex_cfuel_for d).
     assert (Hdoc : Forall (doc_node d) sels) by (eapply Forall_impl; [|exact Hs]; now intros x [H _]).
     destruct (flatten_enough otn sels Hcf Hdoc) as (fields & v2 & Er). rewrite Er.
@@ -148,9 +150,10 @@ Proof.
     destruct (collect_eq_reference cx otn oimpls _ _ _ _ _ _ _ Happ Ec Er) as [_ Hgr]. rewrite <- Hgr.
     pose proof (collect_ok s d vars otn oimpls sels m v groups Hs Ec) as Hg1.
     destruct (collect_typed s d vars Hfr otn oimpls _ _ _ _ Hts Ec) as [Hg2 Hg3].
+    pose proof (collect_creach cx otn oimpls _ _ _ _ Ec) as Hg4. cbn [cx ex_cx_for ex_schema ex_frags] in Hg4.
     clear Ec Er Hgr. induction groups as [|[key [f0 rest]] groups IHg]; [reflexivity|].
     inversion Hg1 as [|? ? [A0 Ar] Hg1']; subst. inversion Hg2 as [|? ? [B0 Br] Hg2']; subst.
-    inversion Hg3 as [|? ? [K0 Kr] Hg3']; subst. cbn [fst snd] in *.
+    inversion Hg3 as [|? ? [K0 Kr] Hg3']; subst. inversion Hg4 as [|? ? [C0 Cr] Hg4']; subst. cbn [fst snd] in *.
     cbn [to_ref map flat_map fst snd].
     destruct (td_type_field s otn (rs_name f0)) as [fdef|] eqn:Et; [|cbn [app]; now apply IHg].
     cbn [app existsb snd]. apply orb_false_iff. split; [|now apply IHg].
@@ -158,29 +161,37 @@ Proof.
     { destruct A0 as (Hf & _ & Hdep). destruct f0; try discriminate. inversion Hdep. }
     assert (Hok : Forall (tfield otn oimpls) (f0 :: rest)) by (constructor; assumption).
     assert (Hkey : Forall (fun g => rs_key g = key) (f0 :: rest)) by (constructor; assumption).
-    pose proof (group_types s d Hu Hm Hcov Halias otn oimpls key f0 rest fdef Hg Hok Hkey Et) as Hty.
+    assert (Hreach : Forall (ex_creach s (rd_frags d) otn oimpls sels) (f0 :: rest)) by (constructor; assumption).
+    assert (Hkeys : forall g1 g2, In g1 (f0 :: rest) -> In g2 (f0 :: rest) -> rs_key g1 = rs_key g2).
+    { intros g1 g2 I1 I2. rewrite Forall_forall in Hkey. rewrite (Hkey g1 I1), (Hkey g2 I2). reflexivity. }
+    assert (Hnames : Forall (fun g => rs_name g = rs_name f0) (f0 :: rest)).
+    { apply Forall_forall. intros g Ig. rewrite Forall_forall in Hreach.
+      apply (mergeable_names s (rd_frags d) sels otn oimpls g f0 Hmg Hg); [now apply Hreach|exact C0|]. apply Hkeys; [exact Ig|now left]. }
+    pose proof (group_types s d Hu Hm Hcov otn oimpls f0 rest fdef Hg Hok Hnames Et) as Hty.
+    assert (Hmg' : mergeable (flat_map rs_sels (f0 :: rest))).
+    { apply (mergeable_sub s (rd_frags d) sels otn oimpls (f0 :: rest) Hmg Hg); [discriminate|exact Hreach|exact Hkeys]. }
     apply (IHf otn oimpls oid fdef f0 rest m Hg); auto. unfold c in *. lia.
   - (* rf_field *)
-    intros otn oimpls oid fdef f0 rest m Hg Hfo Hok Ht Hty Hm'. cbn [rf_field]. cbn [e rf_cx rf_s rf_w].
+    intros otn oimpls oid fdef f0 rest m Hg Hfo Hok Ht Hty Hmg Hm'. cbn [rf_field]. cbn [e rf_cx rf_s rf_w].
     inversion Hfo as [|? ? H0 _]; subst. destruct H0 as (Hfld & Hd & _). inversion Hty as [|? ? Ht0 _]; subst.
     pose proof (coerce_args_fuel s d vars otn fdef f0 Ht Hd) as Hca. fold cx in Hca.
     destruct (ex_coerce_args cx fdef f0) as [args|cl|]; [|reflexivity|contradiction].
     destruct (streq (rs_name f0) td_typename); [reflexivity|].
     destruct ((streq (rs_name f0) td_schema || streq (rs_name f0) td_type) && td_is_query_root s otn); [reflexivity|].
     assert (Hcomp : forall r, rt_out_of_fuel (rf_complete fuel e (fd_ty fdef) r (f0 :: rest)) = false).
-    { intros r. apply (IHc _ _ otn oimpls _ _ m Hfo).
+    { intros r. apply (IHc _ _ otn oimpls _ _ m Hfo); [|exact Hmg|].
       - unfold fields_at. rewrite Forall_forall in Hok, Hty |- *. intros g Hin. split; [now apply Hok|]. now rewrite (Hty g Hin).
       - pose proof (doc_node_ty_size d f0 Hd Hfld) as Hsz. rewrite Ht0 in Hsz. unfold ty_fuel, maxty in *.
         destruct (is_non_null (fd_ty fdef)); lia. }
     destruct (world_resolve w {| ec_obj := oid; ec_field := rs_name f0; ec_args := args |}); try apply Hcomp. reflexivity.
   - (* rf_complete *)
-    intros t r otn oimpls f0 rest m Hfo Hfa Hm'.
+    intros t r otn oimpls f0 rest m Hfo Hfa Hmg Hm'.
     assert (Hskip : r = RvSkip \/ r <> RvSkip) by (destruct r; auto; right; discriminate).
     destruct Hskip as [->|Hr]; [reflexivity|].
     destruct (is_non_null t) eqn:En.
     { rewrite (rf_complete_nonnull fuel e t r (f0 :: rest) En Hr).
       change (rt_out_of_fuel (nn_wrap (rf_complete fuel e (rf_nullable t) r (f0 :: rest))) = false). rewrite rt_oof_wrap.
-      apply (IHc _ _ otn oimpls _ _ m Hfo); [now apply fields_at_nullable|]. pose proof (ty_fuel_nullable t En). lia. }
+      apply (IHc _ _ otn oimpls _ _ m Hfo); [now apply fields_at_nullable|exact Hmg|]. pose proof (ty_fuel_nullable t En). lia. }
     destruct t as [n|n|inner|inner]; try discriminate.
     + (* named *)
       cbn [rf_complete is_non_null].
@@ -201,6 +212,7 @@ Proof.
         apply (IHs tn oimpls' id _ m Hgo).
         -- now apply sub_sels_ok.
         -- eapply sub_typed; [|exact Happ]. exact Hfa.
+        -- exact Hmg.
         -- unfold ty_fuel in Hm'. cbn [cv_ty_size is_non_null] in Hm'. lia.
     + (* list *)
       destruct r as [j|id tn|items| |]; try reflexivity.
@@ -208,7 +220,7 @@ Proof.
       * rewrite rf_complete_list. unfold rf_list_tree.
         assert (Hitems : existsb rt_out_of_fuel (map (fun it => rf_complete fuel e inner it (f0 :: rest)) (rv_ok_prefix items)) = false).
         { induction (rv_ok_prefix items) as [|it l IHl]; [reflexivity|]. cbn [map existsb]. apply orb_false_iff. split; [|exact IHl].
-          apply (IHc _ _ otn oimpls _ _ m Hfo).
+          apply (IHc _ _ otn oimpls _ _ m Hfo); [|exact Hmg|].
           - unfold fields_at in *. eapply Forall_impl; [|exact Hfa]. intros g [G1 G2]. split; [exact G1|]. now rewrite G2.
           - unfold ty_fuel in *. cbn [cv_ty_size is_non_null] in Hm'. destruct (is_non_null inner); lia. }
         destruct (rv_has_err items); exact Hitems.
@@ -217,9 +229,9 @@ Qed.
 Lemma ref_fuel_zero : PB_selset 0 /\ PB_field 0 /\ PB_complete 0.
 Proof.
   split; [|split].
-  - intros otn oimpls oid sels m _ _ _ Hm'. lia.
-  - intros otn oimpls oid fdef f0 rest m _ _ _ _ _ Hm'. lia.
-  - intros t r otn oimpls f0 rest m _ _ Hm'. lia.
+  - intros otn oimpls oid sels m _ _ _ _ Hm'. lia.
+  - intros otn oimpls oid fdef f0 rest m _ _ _ _ _ _ Hm'. lia.
+  - intros t r otn oimpls f0 rest m _ _ _ Hm'. lia.
 Qed.
 
 Lemma ref_fuel_all fuel : PB_selset fuel /\ PB_field fuel /\ PB_complete fuel.
